@@ -541,19 +541,35 @@ def pack2d(RVARA, verbose=False):
     # END ORIGINAL SERIAL CODE
 
     # START NUMPY VECTOR CODE
-    ROLDS = np.zeros_like(RVAR[:, 0])
-    ROLD = VAR1
-    for myJ in range(NY):
-        ICVAL = INT((RVAR[myJ, 0] - ROLD) * SCEXP + 127.5)
-        CVAR[myJ, 0] = ICVAL
-        ROLD = FLOAT(ICVAL - 127) / SCEXP + ROLD
-        ROLDS[myJ] = ROLD
+    # The exponent comes from differences of the original values, but each
+    # difference is packed relative to the previous value as it will be
+    # unpacked. When the largest difference is just below a power of two
+    # the accumulated rounding can push a scaled difference outside the
+    # byte range (below 0, or 256 and above); use the next exponent then.
+    while True:
+        inrange = True
+        ROLDS = np.zeros_like(RVAR[:, 0])
+        ROLD = VAR1
+        for myJ in range(NY):
+            RCVAL = (RVAR[myJ, 0] - ROLD) * SCEXP + 127.5
+            inrange = inrange and bool(0 <= RCVAL < 256)
+            ICVAL = INT(RCVAL)
+            CVAR[myJ, 0] = ICVAL
+            ROLD = FLOAT(ICVAL - 127) / SCEXP + ROLD
+            ROLDS[myJ] = ROLD
 
-    ROLD = ROLDS
-    for myI in range(1, NX):
-        ICVAL = INT((RVAR[:, myI] - ROLD) * SCEXP + 127.5)
-        CVAR[:, myI] = ICVAL
-        ROLD = FLOAT(ICVAL - 127) / SCEXP + ROLD
+        ROLD = ROLDS
+        for myI in range(1, NX):
+            RCVAL = (RVAR[:, myI] - ROLD) * SCEXP + 127.5
+            inrange = inrange and bool(((0 <= RCVAL) & (RCVAL < 256)).all())
+            ICVAL = INT(RCVAL)
+            CVAR[:, myI] = ICVAL
+            ROLD = FLOAT(ICVAL - 127) / SCEXP + ROLD
+        if inrange or not np.isfinite(RVAR).all():
+            break
+        NEXP = NEXP + 1
+        PREC = np.float32((2.0**NEXP) / 254.0)
+        SCEXP = np.float32(2.0**(7 - NEXP))
     # rotating checksum: 255 is subtracted whenever the running sum
     # reaches 256, so a non-zero total that is a multiple of 255 gives 255
     KSUM = INT(CVAR.sum())
